@@ -1,6 +1,7 @@
 """C03 — Backend circuit conversion preserves circuit semantics."""
 from __future__ import annotations
 
+import io
 import math
 import os
 import sys
@@ -13,11 +14,174 @@ from common import Ctx, load_known_findings  # noqa: E402
 from translate import c03gen  # noqa: E402
 
 ONE = qp.ONE_Q
-FULL = ONE + ["RX", "RY", "RZ", "U1", "U2", "U3", "CNOT", "CZ", "SWAP", "TOFFOLI", "Pauli", "PauliRotation", "UM1", "UM2"]
+ROTS = ["RX", "RY", "RZ", "U1", "U2", "U3"]
+MQ = ["CNOT", "CZ", "SWAP", "TOFFOLI"]
+FULL = ONE + ROTS + MQ + ["Pauli", "PauliRotation", "UM1", "UM2"]
+WIDE = ["UM3", "UM4"]  # wide UnitaryMatrix gates: per-kind round only (4-qubit register)
 PARAMETRIC = ["ParametricRX", "ParametricRY", "ParametricRZ", "ParametricPauliRotation"]
+PAULIS = {"Pauli", "PauliRotation"}
 
 # vocabulary each forward adapter is documented / coded to accept (everything else must raise)
 BACKENDS = ["qulacs", "qiskit", "cirq", "braket", "tket", "stim", "openqasm"]
+
+# Kinds each adapter's tables cover AND the installed backend version accepts (reference tree).  A circuit over these kinds
+# is "over the adapter's supported gate vocabulary": the adapter has to yield a program for it, raising is a failure.
+# (tket SqrtY/SqrtYdag/UnitaryMatrix raise TypeError with the installed pytket: counted as rejected, see DESIGN.)
+FWD_SUPPORTED = {
+    "qulacs": set(FULL) | set(WIDE),
+    "qiskit": set(FULL) | set(WIDE),
+    "cirq": (set(FULL) | set(WIDE)) - PAULIS,
+    "braket": set(FULL) | set(WIDE),
+    "tket": (set(ONE) - {"SqrtY", "SqrtYdag"}) | set(ROTS) | set(MQ),
+    "stim": (set(ONE) - {"T", "Tdag"}) | {"CNOT", "CZ", "SWAP", "Pauli"},  # + rotations at Clifford angles (not pinned)
+    "openqasm": (set(ONE) - {"SqrtXdag", "SqrtY", "SqrtYdag"}) | set(ROTS) | set(MQ),
+}
+# kinds whose forward image the reverse adapter takes back (reference tree)
+REV_SUPPORTED = {
+    "qulacs": set(FULL) - {"UM2"},  # multi-qubit DenseMatrix gates are refused by circuit_from_qulacs (observation, see judge())
+    "qiskit": set(FULL) | set(WIDE),
+    "cirq": (set(FULL) | set(WIDE)) - PAULIS,
+    "braket": set(FULL) | set(WIDE),
+    "tket": (set(ONE) - {"SqrtY", "SqrtYdag"}) | set(ROTS) | set(MQ),
+}
+
+# A circuit over the pinned supported vocabulary that the adapter refuses (raises) is reported as a witness (`*-rejects.*` keys): the
+# property asks for a program for every circuit over the supported vocabulary; only gates the backend cannot express may be rejected.
+# Never fires on the reference tree.  Set to False to count such refusals only.
+REJECTING_SUPPORTED_IS_A_FAILURE = True
+
+
+def note_once(ctx, text):
+    if text not in ctx.notes:
+        ctx.notes.append(text)
+
+
+_ECR = None
+
+
+def ecr_matrix():
+    """ECR as documented in quri_parts.qiskit.circuit.gates (local bit 0 = first target)"""
+    global _ECR
+    if _ECR is None:
+        import numpy as np
+
+        _ECR = np.array([[0, 1, 0, 1j], [1, 0, -1j, 0], [0, 1j, 0, 1], [-1j, 0, 1, 0]], dtype=complex) / math.sqrt(2)
+    return _ECR
+
+
+def circ_unitary(n, gs):
+    """dense oracle + the qiskit-only ECR gate that circuit_from_qiskit may return"""
+    import numpy as np
+
+    from oracle import dense
+
+    u = np.eye(1 << n, dtype=complex)
+    for g in gs:
+        if g.name == "Measurement":
+            continue
+        if g.name == "ECR":
+            u = dense.embed(n, list(g.target_indices), ecr_matrix()) @ u
+        else:
+            u = dense.gate_unitary(n, g) @ u
+    return u
+
+
+def kind_of(g):
+    return g.name if g.name != "UnitaryMatrix" else f"UM{len(g.target_indices)}"
+
+
+def clifford_angle(rng):
+    return rng.randint(-6, 6) * math.pi / 2 + rng.choice([0.0, 0.0, 0.0, 1e-12, -1e-12])
+
+
+def add_kind(rng, c, kind, clifford=False):
+    """append one gate of `kind` to c (nothing when the register is too small)"""
+    from quri_parts.circuit import gates
+
+    from oracle import dense
+
+    n = c.qubit_count
+    if kind in ("UM3", "UM4"):
+        m = int(kind[2])
+        if n >= m:
+            c.add_gate(gates.UnitaryMatrix(rng.sample(range(n), m), dense.random_unitary(rng, 1 << m).tolist()))
+        return
+    if clifford and kind in ROTS + ["PauliRotation"]:
+        a = [clifford_angle(rng) for _ in range(3)]
+        q = rng.randrange(n)
+        if kind == "PauliRotation":
+            m = rng.randint(1, min(n, 3))
+            c.add_gate(gates.PauliRotation(rng.sample(range(n), m), [rng.randint(1, 3) for _ in range(m)], a[0]))
+        elif kind == "U2":
+            c.add_gate(gates.U2(q, a[0], a[1]))
+        elif kind == "U3":
+            c.add_gate(gates.U3(q, a[0], a[1], a[2]))
+        else:
+            c.add_gate(getattr(gates, kind)(q, a[0]))
+        return
+    for g in c01.random_real_circuit(rng, n, 1, [kind]).gates:
+        c.add_gate(g)
+
+
+def gen_circuit(rng, n, length, kinds, clifford=False):
+    from quri_parts.circuit import QuantumCircuit
+
+    c = QuantumCircuit(n)
+    for _ in range(length):
+        add_kind(rng, c, rng.choice(kinds), clifford)
+    return c
+
+
+def pauli_set_transpiler():
+    from quri_parts.circuit.transpile import PauliDecomposeTranspiler, PauliRotationDecomposeTranspiler, SequentialTranspiler
+
+    return SequentialTranspiler([PauliDecomposeTranspiler(), PauliRotationDecomposeTranspiler()])
+
+
+def call_variants(ctx, backend, conv):
+    """the documented ways to call the adapter: [(label, call(circuit) -> backend object, kinds gained, kinds lost)]"""
+    out = [("default", conv, set(), set())]
+    try:
+        if backend == "qiskit":
+            out += [("transpiler=None positional", lambda c: conv(c, None), set(), set()),
+                    ("transpiler=<Pauli decomposition>", lambda c: conv(c, transpiler=pauli_set_transpiler()), set(), set())]
+        elif backend == "braket":
+            from quri_parts.braket.circuit import BraketSetTranspiler
+
+            out += [("transpiler=None positional", lambda c: conv(c, None), set(), PAULIS),
+                    ("transpiler=None keyword", lambda c: conv(c, transpiler=None), set(), PAULIS),
+                    ("transpiler=BraketSetTranspiler()", lambda c: conv(c, BraketSetTranspiler()), set(), set())]
+        elif backend == "cirq":
+            from quri_parts.cirq.circuit import CirqSetTranspiler
+
+            out += [("convert_circuit(CirqSetTranspiler()(c))", lambda c: conv(CirqSetTranspiler()(c)), PAULIS, set())]
+        elif backend == "openqasm":
+            from quri_parts.openqasm.circuit import OpenQASMTranspiler, convert_to_qasm
+
+            def stream(c):
+                s = io.StringIO()
+                convert_to_qasm(c, s)
+                return s.getvalue()
+
+            out += [("convert_to_qasm_str(OpenQASMTranspiler()(c))", lambda c: conv(OpenQASMTranspiler()(c)), PAULIS, set()),
+                    ("convert_to_qasm(c, StringIO)", stream, set(), set())]
+    except (ImportError, AttributeError) as e:
+        ctx.disagree("C03 entry point", {"backend": backend}, f"{type(e).__name__}: {e}", "documented entry point exists")
+    return out
+
+
+def circuit_forms(rng, circ):
+    """the same gate list as a mutable / frozen / bound-parametric circuit object"""
+    r = rng.random()
+    if r < 0.6:
+        return "QuantumCircuit", circ
+    if r < 0.8:
+        return "ImmutableQuantumCircuit", circ.freeze()
+    from quri_parts.circuit import ParametricQuantumCircuit
+
+    pc = ParametricQuantumCircuit(circ.qubit_count)
+    pc.extend(circ)
+    return "ImmutableBoundParametricQuantumCircuit", pc.bind_parameters([])
 
 
 def gen(ctx: Ctx):
@@ -88,7 +252,7 @@ def reverse(backend):
 
 
 def single_gate_circuit(rng, kind, n=3):
-    c = c01.random_real_circuit(rng, n, 1, [kind])
+    c = gen_circuit(rng, 4 if kind in WIDE else n, 1, [kind])
     return c if c.gates else None
 
 
@@ -102,150 +266,638 @@ def finding_key(backend, direction, kind, detail=""):
     return f"{backend}.{direction}.{kind}{detail}"
 
 
+_QASM3 = []
+
+
+def qasm3_loads():
+    """qiskit's OpenQASM 3 importer: a second, independent reader of the emitted text (None when not installed)"""
+    if not _QASM3:
+        try:
+            from qiskit import qasm3
+
+            qasm3.loads('OPENQASM 3;\ninclude "stdgates.inc";\nqubit[1] q;\nh q[0];')
+            _QASM3.append(qasm3.loads)
+        except Exception:  # noqa: BLE001
+            _QASM3.append(None)
+    return _QASM3[0]
+
+
+def qasm_second_reading(ctx, txt, n, want, tol):
+    """(problem or None): the emitted text must be a valid OpenQASM 3 program over stdgates.inc that acts as `want` on
+    `qubit[n] q` and ends with the documented measurement of every qubit into the bit of the same index"""
+    from oracle import dense
+
+    loads = qasm3_loads()
+    if loads is None:
+        return None
+    try:
+        qc = loads(txt)
+    except Exception as e:  # noqa: BLE001
+        return f"qiskit.qasm3.loads rejects the emitted text: {type(e).__name__}: {str(e)[:120]}"
+    ctx.count("openqasm.second-reader", "loaded")
+    if qc.num_qubits != n:
+        return f"the program declares {qc.num_qubits} qubits for a {n}-qubit circuit"
+    meas = sorted((qc.find_bit(i.qubits[0]).index, qc.find_bit(i.clbits[0]).index) for i in qc.data if i.operation.name == "measure")
+    if meas != [(i, i) for i in range(n)]:
+        return f"the final measurement is {meas}, documented: every q[i] into c[i]"
+    from qiskit.quantum_info import Operator
+
+    try:
+        u = Operator(qc.remove_final_measurements(inplace=False)).data
+    except Exception as e:  # noqa: BLE001
+        return f"the program read by qiskit.qasm3 has no unitary: {type(e).__name__}"
+    d = dense.phase_dist(u, want)
+    if d > tol:
+        return f"read by qiskit.qasm3 the program differs from the documented action by {d:.3g}"
+    return None
+
+
+def judge(ctx: Ctx, backend, kind, circ, form, arg, label, call, uni, rev, tol, supported):
+    """one conversion, judged: forward action, supported vocabulary not rejected, round trip"""
+    from oracle import dense
+
+    n = circ.qubit_count
+    want = dense.circuit_unitary(n, circ.gates)
+    kinds = [kind_of(g) for g in circ.gates]
+    inp = dict(c01.describe_circ(circ), call=label, circuit_type=form)
+    try:
+        obj = call(arg)
+    except Exception as e:  # noqa: BLE001 — rejecting is allowed by the property for gates the backend cannot express
+        ctx.count(f"{backend}.forward", "rejected:" + type(e).__name__)
+        if REJECTING_SUPPORTED_IS_A_FAILURE and all(k in supported for k in kinds):
+            bad = kinds[0] if len(set(kinds)) == 1 else rejected_kind(call, circ, supported)
+            ctx.witness(finding_key(backend, "forward-rejects", bad),
+                        f"{backend}: the adapter raises {type(e).__name__} ({str(e)[:80]}) for a circuit over its supported gate vocabulary", inp,
+                        {"backend": backend})
+        return
+    if backend == "stim" and not stim_ok(circ):
+        # CliffordApproximation is the documented weaker relation for non-Clifford input
+        ctx.count("stim.forward", "approximated")
+        return
+    try:
+        got = uni(obj, n)
+    except Exception as e:  # noqa: BLE001
+        ctx.count(f"{backend}.forward", "backend-cannot-evaluate:" + type(e).__name__)
+        if backend == "openqasm":
+            ctx.witness("openqasm.forward.invalid-program", f"the emitted text is not a program over stdgates.inc on the declared register "
+                        f"({type(e).__name__}: {str(e)[:100]})", inp, {"text": str(obj)[:600]})
+        return
+    d = dense.phase_dist(got, want)
+    ctx.count(f"{backend}.forward", "ok" if d <= tol else "MISMATCH")
+    if d > tol:
+        bad = kind
+        if kind == "circuit":
+            bad = first_bad_kind(backend, call, uni, circ, tol)
+        ctx.witness(finding_key(backend, "forward", bad), f"{backend}: converted circuit differs from the documented action by {d:.3g} (up to phase)",
+                    inp, {"backend": backend})
+        return
+    if backend == "openqasm":
+        why = qasm_second_reading(ctx, obj, n, want, tol)
+        if why:
+            ctx.witness("openqasm.forward.invalid-program", why, inp, {"text": str(obj)[:600]})
+        return
+    if rev is None:
+        return
+    rsup = REV_SUPPORTED.get(backend, set())
+    # Pauli gates reach the reverse adapter decomposed (braket, set transpilers) or as a backend-native box it reads as a matrix
+    rkinds = [k for k in kinds if k not in PAULIS]
+    try:
+        back = rev(obj)
+    except Exception as e:  # noqa: BLE001
+        ctx.count(f"{backend}.reverse", "rejected:" + type(e).__name__)
+        if backend == "qulacs" and any(k in ("UM2", "UM3", "UM4") for k in kinds):
+            # observation, not a finding (rejecting is allowed): circuit_from_qulacs raises for every multi-qubit DenseMatrix gate
+            ctx.count("qulacs.reverse", "observed:multi-qubit-dense-rejected")
+            note_once(ctx, "observation: circuit_from_qulacs raises ValueError (np.allclose of the 2^k x 2^k matrix against the 2x2 X matrix cannot "
+                      "broadcast) for every DenseMatrix gate on >= 2 targets, so the round trip of a multi-qubit UnitaryMatrix is rejected; only a "
+                      "returned circuit with a different action would be a witness")
+        elif REJECTING_SUPPORTED_IS_A_FAILURE and all(k in rsup for k in rkinds):
+            bad = rkinds[0] if len(set(rkinds)) == 1 else "circuit"
+            ctx.witness(finding_key(backend, "roundtrip-rejects", bad), f"circuit_from_{backend} raises {type(e).__name__} ({str(e)[:80]}) on the "
+                        "image of a circuit over the supported vocabulary", inp, {"backend": backend})
+        return
+    try:
+        # backends without a register size return the smallest register that holds the used qubits
+        if back.qubit_count > n or any(max(tuple(g.target_indices) + tuple(g.control_indices)) >= n for g in back.gates):
+            d2 = 9.0
+        else:
+            d2 = dense.phase_dist(circ_unitary(n, back.gates), want)
+    except Exception as e:  # noqa: BLE001 — an unknown gate name or a gate with the wrong number of parameters / matrix shape
+        ctx.count(f"{backend}.reverse", "malformed:" + type(e).__name__)
+        d2 = 8.0
+    ctx.count(f"{backend}.reverse", "ok" if d2 <= tol else "MISMATCH")
+    if d2 > tol:
+        bads = [kind] if kind != "circuit" else bad_kinds_rev(call, rev, circ, tol)
+        for bad in bads:
+            detail = ".rounding" if d2 < 1e-4 else ""
+            ctx.witness(finding_key(backend, "roundtrip", bad, detail),
+                        f"{backend}: circuit_from_{backend}(convert_circuit(c)) differs from c by {d2:.3g} (up to phase)", inp, {"backend": backend})
+
+
+def rejected_kind(call, circ, supported):
+    """the first supported kind of the circuit that the adapter rejects on its own"""
+    from quri_parts.circuit import QuantumCircuit
+
+    for g in circ.gates:
+        c = QuantumCircuit(circ.qubit_count)
+        c.add_gate(g)
+        try:
+            call(c)
+        except Exception:  # noqa: BLE001
+            return kind_of(g)
+    return "circuit"
+
+
 def validate(ctx: Ctx, budget_s: float):
     import time
 
-    import numpy as np
-
-    from oracle import dense
-
     rng = ctx.rng
     t0 = time.time()
-    n_eval = 0
-    per_kind_done = False
-    while True:
-        if per_kind_done and time.time() - t0 > budget_s:
-            break
-        for backend in BACKENDS:
-            try:
-                conv, uni = forward(backend)
-            except ImportError as e:
-                ctx.notes.append(f"{backend}: not importable ({e}); skipped")
-                continue
-            rev = reverse(backend)
-            # stim: gates that `is_clifford` accepts within its own tolerance are snapped to the Clifford
-            tol = 1e-5 if backend == "stim" else 1e-6
-            # 1. every kind alone (first round), then random circuits
-            if not per_kind_done:
-                work = []
-                for kind in FULL:
-                    for _ in range(2 if ctx.quick() else 8):
-                        c = single_gate_circuit(rng, kind)
-                        if c is not None:
-                            work.append((kind, c))
+    n0 = ctx.evaluations
+    setups = []
+    for backend in BACKENDS:
+        try:
+            conv, uni = forward(backend)
+        except ImportError as e:
+            ctx.notes.append(f"{backend}: not importable ({e}); skipped")
+            continue
+        # stim: gates that `is_clifford` accepts within its own tolerance are snapped to the Clifford
+        setups.append((backend, uni, reverse(backend), 1e-5 if backend == "stim" else 1e-6, call_variants(ctx, backend, conv)))
+    # 1. every kind alone through every documented call form
+    for backend, uni, rev, tol, variants in setups:
+        for kind in FULL + WIDE:
+            for label, call, plus, minus in variants:
+                for _ in range(1 if ctx.quick() and label != "default" else 2 if ctx.quick() else 6):
+                    c = single_gate_circuit(rng, kind)
+                    if c is None:
+                        continue
+                    ctx.evaluations += 1
+                    # UM4 is there for the adapters' width limits; its round trip adds nothing to UM3's
+                    judge(ctx, backend, kind, c, "QuantumCircuit", c, label, call, uni, None if kind == "UM4" else rev, tol,
+                          (FWD_SUPPORTED[backend] | plus) - minus)
+        if backend == "stim":  # rotations at Clifford angles are part of the stim vocabulary
+            for kind in ROTS + ["PauliRotation"]:
+                for _ in range(ctx.n(3, 12)):
+                    c = gen_circuit(rng, 3, 1, [kind], clifford=True)
+                    ctx.evaluations += 1
+                    judge(ctx, backend, kind, c, "QuantumCircuit", c, "default", variants[0][1], uni, rev, tol, FWD_SUPPORTED[backend])
+    # parametric / measurement / unknown kinds must be rejected by gate-level converters
+    rejection_checks(ctx)
+    for part in (qulacs_gate_level, compiled_entry_point, parametric_entry_points, measurement_checks, placement_checks):
+        try:
+            ctx.evaluations += part(ctx) or 0
+        except (ImportError, AttributeError) as e:
+            ctx.disagree("C03 entry point", {"check": part.__name__}, f"{type(e).__name__}: {e}", "documented entry point exists")
+    # 2. random circuits: over the adapter's own vocabulary (so that whole circuits get through) or over everything
+    while time.time() - t0 < budget_s:
+        for backend, uni, rev, tol, variants in setups:
+            label, call, plus, minus = rng.choice(variants) if rng.random() < 0.5 else variants[0]
+            sup = (FWD_SUPPORTED[backend] | plus) - minus
+            r = rng.random()
+            if backend == "stim" and r < 0.7:
+                kinds = sorted(sup - set(WIDE)) + ROTS + ["PauliRotation"]
+                c = gen_circuit(rng, rng.randint(1, 4), rng.randint(1, 8), kinds, clifford=True)
             else:
-                c = c01.random_real_circuit(rng, rng.randint(1, 4), rng.randint(1, 7), FULL)
-                work = [("circuit", c)]
-            for kind, circ in work:
-                n = circ.qubit_count
-                n_eval += 1
-                want = dense.circuit_unitary(n, circ.gates)
-                try:
-                    obj = conv(circ)
-                except Exception as e:  # noqa: BLE001 — rejecting is allowed by the property
-                    ctx.count(f"{backend}.forward", "rejected:" + type(e).__name__)
-                    continue
-                if backend == "stim" and not stim_ok(circ):
-                    # CliffordApproximation is the documented weaker relation for non-Clifford input
-                    ctx.count("stim.forward", "approximated")
-                    continue
-                try:
-                    got = uni(obj, n)
-                except Exception as e:  # noqa: BLE001
-                    ctx.count(f"{backend}.forward", "backend-cannot-evaluate:" + type(e).__name__)
-                    continue
-                d = dense.phase_dist(got, want)
-                ctx.count(f"{backend}.forward", "ok" if d <= tol else "MISMATCH")
-                if d > tol:
-                    bad = kind
-                    if kind == "circuit":
-                        bad = first_bad_kind(backend, conv, uni, circ, tol)
-                    ctx.witness(finding_key(backend, "forward", bad), f"{backend}: converted circuit differs from the documented action by {d:.3g} (up to phase)",
-                                c01.describe_circ(circ), {"backend": backend})
-                    continue
-                if rev is None:
-                    continue
-                try:
-                    back = rev(obj)
-                except Exception as e:  # noqa: BLE001
-                    ctx.count(f"{backend}.reverse", "rejected:" + type(e).__name__)
-                    continue
-                try:
-                    # backends without a register size return the smallest register that holds the used qubits
-                    if back.qubit_count > n or any(max(tuple(g.target_indices) + tuple(g.control_indices)) >= n for g in back.gates):
-                        d2 = 9.0
-                    else:
-                        d2 = dense.phase_dist(dense.circuit_unitary(n, back.gates), want)
-                except KeyError as e:
-                    ctx.count(f"{backend}.reverse", "oracle-unknown-gate")
-                    continue
-                ctx.count(f"{backend}.reverse", "ok" if d2 <= tol else "MISMATCH")
-                if d2 > tol:
-                    bad = kind
-                    if kind == "circuit":
-                        bad = first_bad_kind_rev(backend, conv, rev, circ, tol)
-                    if bad is None:
-                        bad = "circuit"
-                    detail = ""
-                    if d2 < 1e-4:
-                        detail = ".rounding"
-                    ctx.witness(finding_key(backend, "roundtrip", bad, detail),
-                                f"{backend}: circuit_from_{backend}(convert_circuit(c)) differs from c by {d2:.3g} (up to phase)",
-                                c01.describe_circ(circ), {"backend": backend})
-        # parametric / measurement kinds must be rejected by gate-level converters
-        if not per_kind_done:
-            rejection_checks(ctx)
-            n_eval += compiled_entry_point(ctx)
-        per_kind_done = True
-    ctx.evaluations += n_eval
-    ctx.extra["oracle_validation"] = {"evaluations": n_eval}
+                kinds = sorted(sup - set(WIDE)) if r < 0.7 else FULL
+                c = gen_circuit(rng, rng.randint(1, 4), rng.randint(1, 7), kinds)
+            if not c.gates:  # cirq / braket cannot even name the register of an empty circuit
+                continue
+            form, arg = circuit_forms(rng, c)
+            ctx.count("C03.circuit-type", form)
+            ctx.count(f"{backend}.call", label)
+            ctx.evaluations += 1
+            judge(ctx, backend, "circuit", c, form, arg, label, call, uni, rev, tol, sup)
+    ctx.extra["oracle_validation"] = {"evaluations": ctx.evaluations - n0}
     ctx.search_budget_s = budget_s
 
 
 def compiled_entry_point(ctx: Ctx) -> int:
     """quri_parts.qulacs.circuit.compile_circuit: the Qulacs program handed out by `.qulacs_circuit` (and what
     convert_circuit returns for a compiled circuit) is the circuit's program at EVERY request, whatever the caller did
-    with a program it was handed earlier"""
+    with a program it was handed earlier or with the source circuit"""
     from oracle import backends as B
     from oracle import dense
 
-    try:
-        from quri_parts.qulacs.circuit import convert_circuit
-        from quri_parts.qulacs.circuit.compiled_circuit import compile_circuit
-        import qulacs
-    except ImportError as e:
-        ctx.notes.append(f"compiled qulacs circuits not importable ({e}); skipped")
-        return 0
+    from quri_parts.qulacs.circuit import convert_circuit
+    from quri_parts.qulacs.circuit.compiled_circuit import compile_circuit
+    import qulacs
+
     rng = ctx.rng
     k = 0
-    for _ in range(12 if ctx.quick() else 200):
+    for it in range(12 if ctx.quick() else 200):
         n = rng.randint(1, 3)
-        circ = c01.random_real_circuit(rng, n, rng.randint(1, 6), [x for x in FULL if x not in ("UM1", "UM2")])
+        circ = gen_circuit(rng, n, rng.randint(1, 6), FULL)
         want = dense.circuit_unitary(n, circ.gates)
+        inp = c01.describe_circ(circ)
+        src_form = "ImmutableQuantumCircuit" if it % 3 == 2 else "QuantumCircuit"
         try:
-            cc = compile_circuit(circ)
+            cc = compile_circuit(circ.freeze() if it % 3 == 2 else circ)
             progs = [("first .qulacs_circuit", cc.qulacs_circuit)]
-            # the caller keeps working with the program it was handed
+            # the caller keeps working with the program it was handed, and with the source circuit
             progs[0][1].add_gate(qulacs.gate.X(rng.randrange(n)))
-            progs = [("first .qulacs_circuit", None), ("second .qulacs_circuit", cc.qulacs_circuit), ("convert_circuit(compiled)", convert_circuit(cc))]
-            first = cc.qulacs_circuit
+            if it % 3 == 1:
+                circ.add_X_gate(rng.randrange(n))
+            progs = [("second .qulacs_circuit", cc.qulacs_circuit), ("convert_circuit(compiled)", convert_circuit(cc)),
+                     (".freeze().qulacs_circuit", cc.freeze().qulacs_circuit), ("compile_circuit(compiled).qulacs_circuit", compile_circuit(cc).qulacs_circuit)]
+            same_gates = tuple(cc.gates) == tuple(compile_circuit(circ).gates) if it % 3 != 1 else True
         except Exception as e:  # noqa: BLE001
             ctx.count("qulacs.compiled", "raised:" + type(e).__name__)
+            ctx.witness("qulacs.compiled.raises", f"compile_circuit / .qulacs_circuit raises {type(e).__name__} ({str(e)[:80]}) for a circuit over the "
+                        "Qulacs vocabulary", dict(inp, source=src_form))
             continue
         k += 1
+        if not same_gates or cc.qubit_count != n:
+            ctx.witness("qulacs.compiled.gates", "the compiled circuit does not list the gates / register of the circuit it was compiled from",
+                        dict(inp, source=src_form))
         for what, prog in progs:
-            if prog is None:
-                continue
             d = dense.phase_dist(B.qulacs_unitary(prog, n), want)
             ctx.count("qulacs.compiled", "ok" if d <= 1e-6 else "MISMATCH")
             if d > 1e-6:
-                ctx.witness("qulacs.compiled.program", f"compile_circuit: {what} (after the caller appended a gate to a program handed out earlier) "
-                            f"differs from the circuit's action by {d:.3g}", c01.describe_circ(circ), {"gate_count": prog.get_gate_count()})
+                ctx.witness("qulacs.compiled.program", f"compile_circuit: {what} (after the caller appended a gate to a program handed out earlier"
+                            + (" and to the source circuit" if it % 3 == 1 else "") + f") differs from the circuit's action by {d:.3g}",
+                            dict(inp, source=src_form), {"gate_count": prog.get_gate_count()})
                 break
+    # the compiled circuit is a QuantumCircuit subclass: when its own add_* methods are usable, the program has to follow
+    for _ in range(ctx.n(2, 10)):
+        n = rng.randint(1, 3)
+        circ = gen_circuit(rng, n, rng.randint(1, 4), ONE + ROTS)
+        q = rng.randrange(n)
+        try:
+            cc = compile_circuit(circ)
+            cc.add_X_gate(q)
+        except Exception as e:  # noqa: BLE001 — refusing the mutation is fine
+            ctx.count("qulacs.compiled.add", "refused:" + type(e).__name__)
+            continue
+        k += 1
+        after = list(cc.gates)
+        d = dense.phase_dist(B.qulacs_unitary(cc.qulacs_circuit, n), circ_unitary(n, after))
+        ctx.count("qulacs.compiled.add", "ok" if d <= 1e-6 else "STALE")
+        if d > 1e-6:
+            ctx.witness("qulacs.compiled.stale-after-add", f"compile_circuit(c).add_X_gate({q}) succeeds and the compiled circuit lists {len(after)} gates, but "
+                        f".qulacs_circuit still is the program of the {len(circ.gates)} gates compiled at construction (distance {d:.3g})",
+                        dict(c01.describe_circ(circ), then=f"add_X_gate({q}) on the compiled circuit"))
     return k
 
 
-def first_bad_kind(backend, conv, uni, circ, tol):
+def qulacs_gate_level(ctx: Ctx) -> int:
+    """quri_parts.qulacs.circuit.convert_gate (Python, public; convert_circuit itself is the Rust converter)"""
+    from oracle import backends as B
+    from oracle import dense
+
+    import qulacs
+    from quri_parts.qulacs.circuit import convert_gate
+
+    rng = ctx.rng
+    k = 0
+    for kind in FULL + ["UM3"]:
+        for _ in range(ctx.n(2, 10)):
+            c = single_gate_circuit(rng, kind)
+            n = c.qubit_count
+            k += 1
+            try:
+                qc = qulacs.QuantumCircuit(n)
+                qc.add_gate(convert_gate(c.gates[0]))
+                d = dense.phase_dist(B.qulacs_unitary(qc, n), dense.circuit_unitary(n, c.gates))
+            except Exception as e:  # noqa: BLE001
+                ctx.count("qulacs.convert_gate", "raised:" + type(e).__name__)
+                ctx.witness(finding_key("qulacs", "convert_gate-rejects", kind), f"qulacs convert_gate raises {type(e).__name__} ({str(e)[:80]})",
+                            c01.describe_circ(c))
+                continue
+            ctx.count("qulacs.convert_gate", "ok" if d <= 1e-6 else "MISMATCH")
+            if d > 1e-6:
+                ctx.witness(finding_key("qulacs", "convert_gate", kind), f"the Qulacs gate returned by convert_gate differs from the documented action by {d:.3g}",
+                            c01.describe_circ(c))
+    return k
+
+
+def parametric_entry_points(ctx: Ctx) -> int:
+    """convert_parametric_circuit / compile_parametric_circuit: the Qulacs parametric program with its parameters set to
+    param_mapper(values) acts as the circuit bound to `values` (expected action computed from the generated spec, not
+    from bind_parameters); programs are handed out fresh"""
+    import numpy as np
+
+    from oracle import backends as B
+    from oracle import dense
+
+    import qulacs
+    from quri_parts.circuit import CONST, LinearMappedParametricQuantumCircuit, ParametricQuantumCircuit, gates
+    from quri_parts.qulacs.circuit import compile_parametric_circuit, convert_parametric_circuit
+
+    rng = ctx.rng
+    k = 0
+    for it in range(ctx.n(30, 500)):
+        n = rng.randint(1, 3)
+        linear = it % 2 == 1
+        if linear:
+            circ = LinearMappedParametricQuantumCircuit(n)
+            pars = circ.add_parameters(*[f"p{i}" for i in range(rng.randint(1, 3))])
+        else:
+            circ = ParametricQuantumCircuit(n)
+            pars = []
+        vals = [rng.choice([rng.uniform(-7, 7), rng.randint(-3, 3) * math.pi / 2, float(rng.randint(-2, 2))]) for _ in pars]
+        want = np.eye(1 << n, dtype=complex)
+        desc = []
+        for _ in range(rng.randint(1, 7)):
+            if rng.random() < 0.4:
+                fixed = gen_circuit(rng, n, 1, FULL)
+                for g in fixed.gates:
+                    circ.add_gate(g)
+                    want = dense.gate_unitary(n, g) @ want
+                    desc.append(c01.describe_circ(fixed)["gates"][0])
+                continue
+            kind = rng.choice(["RX", "RY", "RZ", "PauliRotation"])
+            if kind == "PauliRotation":
+                m = rng.randint(1, n)
+                ts, ids = rng.sample(range(n), m), [rng.randint(1, 3) for _ in range(m)]
+            else:
+                ts, ids = [rng.randrange(n)], []
+            if linear:
+                r = rng.random()
+                if r < 0.3:
+                    p = rng.choice(pars)
+                    fn, angle, fdesc = p, vals[pars.index(p)], f"{p.name}"
+                else:
+                    sub = rng.sample(range(len(pars)), rng.randint(1, len(pars)))
+                    coef = {i: rng.choice([1.0, -1.0, 0.5, 2.0, rng.uniform(-2, 2)]) for i in sub}
+                    const = rng.choice([0.0, rng.uniform(-3, 3)]) if r < 0.7 else None
+                    fn = {pars[i]: cf for i, cf in coef.items()}
+                    if const is not None:
+                        fn[CONST] = const
+                    angle = sum(cf * vals[i] for i, cf in coef.items()) + (const or 0.0)
+                    fdesc = " + ".join(f"{cf!r}*p{i}" for i, cf in coef.items()) + (f" + {const!r}" if const is not None else "")
+                args = (ts, ids, fn) if kind == "PauliRotation" else (ts[0], fn)
+            else:
+                angle = rng.choice([rng.uniform(-7, 7), rng.randint(-4, 4) * math.pi / 2, float(rng.randint(-2, 2))])
+                vals.append(angle)
+                fdesc = f"theta{len(vals) - 1}"
+                args = (ts, ids) if kind == "PauliRotation" else (ts[0],)
+            getattr(circ, f"add_Parametric{kind}_gate")(*args)
+            want = dense.embed(n, ts, dense.local_matrix(kind, (angle,), tuple(ids), None)) @ want
+            desc.append({"name": "Parametric" + kind, "targets": ts, "pauli_ids": ids, "angle": fdesc})
+        inp = {"qubit_count": n, "circuit_type": type(circ).__name__, "gates": desc, "values": [repr(v) for v in vals]}
+        if circ.parameter_count != len(vals):
+            continue
+        vform = rng.choice(["list", "tuple", "ndarray"])
+        vv = {"list": list(vals), "tuple": tuple(vals), "ndarray": np.array(vals, dtype=float)}[vform]
+
+        def program(entry):
+            if entry == "convert_parametric_circuit":
+                return convert_parametric_circuit(circ)
+            if entry == "convert_parametric_circuit(frozen)":
+                return convert_parametric_circuit(circ.freeze())
+            cc = compile_parametric_circuit(circ)
+            if entry == "convert_parametric_circuit(compiled)":
+                return convert_parametric_circuit(cc)
+            first = cc.qulacs_circuit  # the caller works with the program it was handed
+            first.add_gate(qulacs.gate.X(0))
+            for i in range(first.get_parameter_count()):
+                first.set_parameter(i, 1.0)
+            return cc.qulacs_circuit, cc.param_mapper
+
+        for entry in ("convert_parametric_circuit", "convert_parametric_circuit(frozen)", "compile_parametric_circuit", "convert_parametric_circuit(compiled)"):
+            k += 1
+            try:
+                prog, mapper = program(entry)
+                prog = prog.copy()
+                mapped = list(mapper(vv))
+                if len(mapped) != prog.get_parameter_count():
+                    raise IndexError(f"param_mapper returns {len(mapped)} values for {prog.get_parameter_count()} Qulacs parameters")
+                for i, v in enumerate(mapped):
+                    prog.set_parameter(i, float(v))
+                d = dense.phase_dist(B.qulacs_unitary(prog, n), want)
+            except Exception as e:  # noqa: BLE001
+                ctx.count("qulacs.parametric", "raised:" + type(e).__name__)
+                ctx.witness("qulacs.parametric.raises", f"{entry} raises {type(e).__name__} ({str(e)[:100]}) for a parametric circuit over the Qulacs "
+                            f"vocabulary (values passed as {vform})", dict(inp, entry=entry))
+                continue
+            ctx.count("qulacs.parametric", "ok" if d <= 1e-6 else "MISMATCH")
+            if d > 1e-6:
+                ctx.witness("qulacs.parametric.program", f"{entry}: the Qulacs parametric program with parameters param_mapper(values) differs from the "
+                            f"circuit bound to the values by {d:.3g}", dict(inp, entry=entry), {"mapped": [repr(float(x)) for x in mapped]})
+    # anything that is not a parametric circuit is refused, not compiled into something
+    from quri_parts.circuit import QuantumCircuit
+
+    for f in (compile_parametric_circuit, convert_parametric_circuit):
+        k += 1
+        try:
+            r = f(QuantumCircuit(2))
+            ctx.witness("qulacs.parametric.accepts-nonparametric", f"{f.__name__}(QuantumCircuit) returned {str(r)[:60]} instead of raising", {"qubit_count": 2})
+        except Exception:  # noqa: BLE001
+            pass
+    return k
+
+
+def measurement_checks(ctx: Ctx) -> int:
+    """circuits ending in Measurement gates: Qiskit (the adapter with a measurement branch) keeps the unitary part and measures
+    qubit t into classical bit c exactly as the gate says; other adapters reject or, if they accept, keep the unitary part"""
+    from oracle import dense
+
+    from quri_parts.circuit import QuantumCircuit, gates
+
+    rng = ctx.rng
+    k = 0
+    common_kinds = sorted((set(ONE) - {"SqrtXdag", "SqrtY", "SqrtYdag"}) | set(ROTS) | set(MQ))
+    for it in range(ctx.n(8, 80)):
+        n, ncb = rng.randint(1, 3), rng.randint(1, 4)
+        base = gen_circuit(rng, n, rng.randint(0, 4), common_kinds)
+        c = QuantumCircuit(n, ncb)
+        for g in base.gates:
+            c.add_gate(g)
+        m = rng.randint(1, min(n, ncb))
+        qs, cs = rng.sample(range(n), m), rng.sample(range(ncb), m)
+        if it % 2:
+            c.add_gate(gates.Measurement(qs, cs))
+        else:
+            for q, cb in zip(qs, cs):
+                c.add_gate(gates.Measurement([q], [cb]))
+        want = dense.circuit_unitary(n, base.gates)
+        inp = dict(c01.describe_circ(base), cbit_count=ncb, measurements=[[q, cb] for q, cb in zip(qs, cs)], one_gate=bool(it % 2))
+        for backend in BACKENDS:
+            try:
+                conv, uni = forward(backend)
+            except ImportError:
+                continue
+            k += 1
+            try:
+                obj = conv(c)
+            except Exception as e:  # noqa: BLE001
+                ctx.count(f"{backend}.measurement", "rejected:" + type(e).__name__)
+                if backend == "qiskit":
+                    ctx.witness("qiskit.forward-rejects.Measurement", f"the Qiskit adapter raises {type(e).__name__} ({str(e)[:80]}) for a circuit with "
+                                "final measurements", inp)
+                continue
+            try:
+                d = dense.phase_dist(uni(obj, n), want)
+            except Exception as e:  # noqa: BLE001
+                ctx.count(f"{backend}.measurement", "backend-cannot-evaluate:" + type(e).__name__)
+                continue
+            ctx.count(f"{backend}.measurement", "ok" if d <= 1e-6 else "MISMATCH")
+            if d > 1e-6:
+                ctx.witness(finding_key(backend, "forward", "Measurement"), f"{backend}: the unitary part of a measured circuit differs by {d:.3g}", inp)
+                continue
+            if backend != "qiskit":
+                continue
+            got = sorted((obj.find_bit(i.qubits[0]).index, obj.find_bit(i.clbits[0]).index) for i in obj.data if i.operation.name == "measure")
+            if got != sorted(zip(qs, cs)) or obj.num_clbits != ncb:
+                ctx.witness("qiskit.forward.Measurement", f"the Qiskit circuit measures (qubit, clbit) {got} on {obj.num_clbits} clbits; the gates say "
+                            f"{sorted(zip(qs, cs))} on {ncb}", inp)
+                continue
+            rev = reverse("qiskit")
+            try:
+                back = rev(obj)
+            except Exception as e:  # noqa: BLE001
+                # observation, not a finding (rejecting is allowed)
+                ctx.count("qiskit.measurement.reverse", "rejected:" + type(e).__name__)
+                note_once(ctx, f"observation: circuit_from_qiskit raises {type(e).__name__} for every Qiskit circuit with a measure instruction (its 'measure' "
+                          "branch adds a Measurement gate to a QuantumCircuit built without cbit_count); only a returned circuit with other measurements / "
+                          "another unitary part would be a witness")
+                continue
+            bm = sorted(p for g in back.gates if g.name == "Measurement" for p in zip(g.target_indices, g.classical_indices))
+            d2 = dense.phase_dist(circ_unitary(n, back.gates), want)
+            ctx.count("qiskit.measurement.reverse", "ok" if d2 <= 1e-6 and bm == sorted(zip(qs, cs)) else "MISMATCH")
+            if d2 > 1e-6 or bm != sorted(zip(qs, cs)):
+                ctx.witness("qiskit.roundtrip.Measurement", f"round trip of a measured circuit: unitary part differs by {d2:.3g}, measurements {bm}", inp)
+    return k
+
+
+def placement_form(backend, obj):
+    """gate-by-gate listing (name / parameters, wires) of a backend object; identities are dropped (Braket pads with them)"""
+    import re
+
+    if backend == "qulacs":
+        out = []
+        for i in range(obj.get_gate_count()):
+            g = obj.get_gate(i)
+            extra = ""
+            if g.get_name() in ("DenseMatrix", "X-rotation", "Y-rotation", "Z-rotation", "Pauli-rotation"):
+                extra = repr([[round(float(x.real), 9), round(float(x.imag), 9)] for x in g.get_matrix().ravel()[:6]])
+            out.append((g.get_name() + extra, tuple(g.get_target_index_list()), tuple(g.get_control_index_list())))
+        return out
+    if backend == "qiskit":
+        def par(p):
+            try:
+                return repr(float(p))
+            except Exception:  # noqa: BLE001
+                return type(p).__name__
+        return [(i.operation.name + str([par(p) for p in i.operation.params][:4]) + str(getattr(i.operation, "label", "")),
+                 tuple(obj.find_bit(q).index for q in i.qubits)) for i in obj.data]
+    if backend == "cirq":
+        import cirq
+        import numpy as np
+
+        return [(type(op.gate).__name__ + repr(np.round(cirq.unitary(op.gate), 9).ravel()[:8].tolist()), tuple(q.x for q in op.qubits))
+                for op in obj.all_operations()]
+    if backend == "braket":
+        return [(ins.operator.name + str([getattr(ins.operator, a) for a in ("angle", "angle_1", "angle_2", "angle_3") if hasattr(ins.operator, a)]),
+                 tuple(int(q) for q in ins.target)) for ins in obj.instructions if ins.operator.name != "I"]
+    if backend == "tket":
+        return [(str(cmd.op), tuple(int(q.index[0]) for q in cmd.qubits)) for cmd in obj]
+    if backend == "stim":
+        out = []
+        for line in str(obj).split("\n"):
+            p = line.split()
+            if p:
+                out.append((p[0], tuple(int(x) for x in p[1:])))
+        return out
+    if backend == "openqasm":
+        out = []
+        for line in obj.split("\n"):
+            ws = tuple(int(x) for x in re.findall(r"q\[(\d+)\]", line))
+            if ws:
+                out.append((re.sub(r"q\[\d+\]", "q[]", line), ws))
+        return out
+    raise KeyError(backend)
+
+
+def placement_checks(ctx: Ctx) -> int:
+    """wide registers (qubit labels around 31/32 and 63/64, up to 70): the dense oracle cannot follow there, but conversion has
+    to commute with an order-preserving relabelling of the qubits.  The circuit on labels 0..k-1 is judged by its unitary; the
+    same circuit on high labels must convert to the same gate list on the relabelled wires, in both directions."""
+    from oracle import dense
+
+    from quri_parts.circuit import QuantumCircuit, QuantumGate
+
+    rng = ctx.rng
+    k = 0
+    pool = [5, 30, 31, 32, 33, 62, 63, 64, 65, 69]
+    for backend in BACKENDS:
+        try:
+            conv, uni = forward(backend)
+        except ImportError:
+            continue
+        rev = reverse(backend)
+        sup = sorted(FWD_SUPPORTED[backend] - set(WIDE) - ({"UM2"} if backend == "qulacs" else set()))
+        stim_rots = ROTS + ["PauliRotation"] if backend == "stim" else []
+        work = [(3, [kd], sorted(rng.sample([64, 65, 66, 69], 3))) for kd in sup + stim_rots]  # every kind beyond label 63
+        work += [(rng.randint(1, 4), None, None) for _ in range(ctx.n(4, 40))]
+        for n, kds, lab in work:
+            small = gen_circuit(rng, n, 1 if kds else rng.randint(1, 6), kds or sup + stim_rots, clifford=(backend == "stim"))
+            if not small.gates:
+                continue
+            lab = lab or sorted(rng.sample(pool, n))
+            m = dict(enumerate(lab))
+            big = QuantumCircuit(70)
+            for g in small.gates:
+                big.add_gate(QuantumGate(name=g.name, target_indices=tuple(m[t] for t in g.target_indices),
+                                         control_indices=tuple(m[t] for t in g.control_indices), params=g.params, pauli_ids=g.pauli_ids,
+                                         unitary_matrix=g.unitary_matrix))
+            inp = dict(c01.describe_circ(small), relabelled_to=lab, register=70)
+            k += 1
+            try:
+                o_small = conv(small)
+                d = dense.phase_dist(uni(o_small, n), dense.circuit_unitary(n, small.gates))
+                f_small = placement_form(backend, o_small)
+            except Exception as e:  # noqa: BLE001 — judged by the main loop
+                ctx.count(f"{backend}.placement", "small-skip:" + type(e).__name__)
+                continue
+            if d > 1e-5:
+                continue  # a wrong small circuit is the main loop's business
+            try:
+                o_big = conv(big)
+                f_big = placement_form(backend, o_big)
+            except Exception as e:  # noqa: BLE001
+                ctx.count(f"{backend}.placement", "rejected:" + type(e).__name__)
+                ctx.witness(finding_key(backend, "forward-rejects", "wide-register"), f"{backend}: the adapter converts the circuit on qubits 0..{n - 1} but raises "
+                            f"{type(e).__name__} ({str(e)[:80]}) for the same circuit on qubits {lab} of a 70-qubit register", inp)
+                continue
+            want = [(x[0],) + tuple(tuple(m[w] for w in ws) for ws in x[1:]) for x in f_small]
+            ok = f_big == want
+            ctx.count(f"{backend}.placement", "ok" if ok else "MISMATCH")
+            if not ok:
+                diff = next((i for i, (p, q) in enumerate(zip(f_big, want)) if p != q), min(len(f_big), len(want)))
+                ctx.witness(finding_key(backend, "forward", "wide-register"), f"{backend}: on qubits {lab} of a 70-qubit register the converted gate list is not "
+                            f"the relabelled gate list of the (correct) conversion on qubits 0..{n - 1}; first difference at gate {diff}", inp,
+                            {"got": str(f_big[diff:diff + 2])[:300], "expected": str(want[diff:diff + 2])[:300]})
+                continue
+            if rev is None:
+                continue
+            try:
+                b_small = rev(o_small)
+            except Exception:  # noqa: BLE001
+                continue
+            try:
+                b_big = rev(o_big)
+            except Exception as e:  # noqa: BLE001
+                ctx.witness(finding_key(backend, "roundtrip-rejects", "wide-register"), f"circuit_from_{backend} takes the circuit on qubits 0..{n - 1} but raises "
+                            f"{type(e).__name__} ({str(e)[:80]}) on qubits {lab}", inp)
+                continue
+
+            def listing(c, mp):
+                return [(g.name, tuple(mp[t] for t in g.target_indices), tuple(mp[t] for t in g.control_indices),
+                         tuple(round(float(p), 9) for p in g.params), tuple(g.pauli_ids), str(g.unitary_matrix)[:200]) for g in c.gates if g.name != "Identity"]
+
+            try:
+                ls, lb = listing(b_small, m), listing(b_big, {i: i for i in range(71)})
+            except KeyError:
+                ls, lb = None, []
+            ctx.count(f"{backend}.placement.reverse", "ok" if ls == lb else "MISMATCH")
+            if ls != lb:
+                ctx.witness(finding_key(backend, "roundtrip", "wide-register"), f"circuit_from_{backend}: on qubits {lab} the circuit that comes back is not the "
+                            f"relabelled circuit that comes back on qubits 0..{n - 1}", inp, {"got": str(lb)[:300], "expected": str(ls)[:300]})
+    return k
+
+
+def first_bad_kind(backend, call, uni, circ, tol):
     from oracle import dense
     from quri_parts.circuit import QuantumCircuit
 
@@ -253,31 +905,34 @@ def first_bad_kind(backend, conv, uni, circ, tol):
         c = QuantumCircuit(circ.qubit_count)
         c.add_gate(g)
         try:
-            d = dense.phase_dist(uni(conv(c), c.qubit_count), dense.circuit_unitary(c.qubit_count, c.gates))
+            d = dense.phase_dist(uni(call(c), c.qubit_count), dense.circuit_unitary(c.qubit_count, c.gates))
         except Exception:  # noqa: BLE001
             continue
         if d > tol:
-            return g.name if g.name != "UnitaryMatrix" else f"UM{len(g.target_indices)}"
+            return kind_of(g)
     return "circuit"
 
 
-def first_bad_kind_rev(backend, conv, rev, circ, tol):
-    """the gate whose own round trip deviates most (a sub-tolerance rounding of one gate can add up in a circuit)"""
+def bad_kinds_rev(call, rev, circ, tol):
+    """every kind whose own round trip deviates; when none does, the one that deviates most (a sub-tolerance rounding of
+    one gate can add up in a circuit); 'circuit' when the deviation cannot be attributed"""
     from oracle import dense
     from quri_parts.circuit import QuantumCircuit
 
-    best, bd = None, 1e-9
+    best, bd, bads = None, 1e-9, []
     for g in circ.gates:
         c = QuantumCircuit(circ.qubit_count)
         c.add_gate(g)
         try:
-            back = rev(conv(c))
-            d = dense.phase_dist(dense.circuit_unitary(c.qubit_count, back.gates), dense.circuit_unitary(c.qubit_count, c.gates))
+            back = rev(call(c))
+            d = dense.phase_dist(circ_unitary(c.qubit_count, back.gates), dense.circuit_unitary(c.qubit_count, c.gates))
         except Exception:  # noqa: BLE001
             continue
+        if d > tol and kind_of(g) not in bads:
+            bads.append(kind_of(g))
         if d > bd:
-            best, bd = (g.name if g.name != "UnitaryMatrix" else f"UM{len(g.target_indices)}"), d
-    return best
+            best, bd = kind_of(g), d
+    return bads or [best or "circuit"]
 
 
 def rejection_checks(ctx: Ctx):
@@ -311,7 +966,12 @@ def rejection_checks(ctx: Ctx):
         pass
     bad_gates = [
         ParametricQuantumGate(name="ParametricRX", target_indices=(0,)),
+        ParametricQuantumGate(name="ParametricRY", target_indices=(1,)),
+        ParametricQuantumGate(name="ParametricRZ", target_indices=(0,)),
         ParametricQuantumGate(name="ParametricPauliRotation", target_indices=(0, 1), pauli_ids=(1, 2)),
+        QuantumGate(name="Measurement", target_indices=(0,), classical_indices=(0,)),  # no gate-level converter expresses it
+        QuantumGate(name="NoSuchGate", target_indices=(0,)),
+        QuantumGate(name="NoSuchGate", target_indices=(1,), control_indices=(0,), params=(0.3,)),
     ]
     for b, f in convs.items():
         for g in bad_gates:
@@ -323,6 +983,15 @@ def rejection_checks(ctx: Ctx):
                 pass
     from quri_parts.circuit import gates
 
+    if "tket" in convs:  # documented limit of the tket adapter: unitary boxes up to 3 qubits
+        import numpy as np
+
+        ctx.evaluations += 1
+        try:
+            r = convs["tket"](gates.UnitaryMatrix([0, 1, 2, 3], np.eye(16).tolist()))
+            ctx.witness("tket.accepts.UM4", f"tket convert_gate accepted a 4-qubit UnitaryMatrix and returned {str(r)[:60]}", {"gate": "UnitaryMatrix on 4 qubits"})
+        except Exception:  # noqa: BLE001
+            pass
     for b, f in convs.items():
         if b in ("stim",):
             for g in (gates.T(0), gates.RX(0, 0.3), gates.TOFFOLI(0, 1, 2)):
@@ -336,15 +1005,22 @@ def rejection_checks(ctx: Ctx):
 
 def run(ctx: Ctx, replay=None) -> int:
     ctx.rule = ("translated adapter rows (backend, gate kind ↦ backend constructor, argument order and sign) are checked by the kernel against the assumed "
-                "backend semantics; every adapter is then run on single-gate and random circuits and the backend's own simulator / matrix export is "
-                "compared with the documented action (dense oracle), forward and round trip; evaluations = converted circuits")
+                "backend semantics; every adapter is then run through every documented call form (default / explicit / None transpiler, set transpilers, "
+                "stream and string output, mutable / frozen / bound circuit objects) on single-gate and random circuits over its own vocabulary, and the "
+                "backend's own simulator / matrix export is compared with the documented action (dense oracle), forward and round trip; a circuit over the "
+                "supported vocabulary must not be rejected; emitted OpenQASM is read twice (own stdgates.inc interpreter, qiskit.qasm3); the Python Qulacs "
+                "gate converter, the parametric converters / compiled circuits (program with param_mapper(values) set = circuit bound to values; fresh "
+                "program at every request), measurements, wide registers (relabelling equivariance up to qubit 69) and native backend circuits (special "
+                "angles, gate modifiers, several registers, pre_conversion) are judged the same way; evaluations = converted circuits")
     ctx.trusted = c01.TRUSTED[:4] + [
         "assumed backend gate semantics (Props/C03.lean `sem`): validated each run against the backends' own simulators through the forward adapters",
         "backends' matrix exports (qulacs state updates, qiskit Operator, cirq unitary, braket to_unitary, pytket get_unitary, stim tableau) and their qubit-ordering conventions",
-        "OpenQASM: a small interpreter of the emitted text with stdgates.inc semantics (oracle/backends.py)",
+        "OpenQASM: an interpreter of the emitted text with stdgates.inc semantics (oracle/backends.py), cross-read by qiskit.qasm3.loads",
         "packages/rust/src/qulacs/mod.rs is tied by a text translator only; the executed converter is the installed 0.27 binary",
+        "the supported-vocabulary tables FWD_SUPPORTED / REV_SUPPORTED / NATIVE_REJECTED pin which kinds the reference tree accepts with the installed backend versions",
     ]
-    ctx.assumptions = ["circuits over each adapter's vocabulary; UnitaryMatrix on ≤ 2 qubits"]
+    ctx.assumptions = ["circuits over each adapter's vocabulary; UnitaryMatrix on ≤ 4 qubits; dense comparison on ≤ 4 qubits, structural (relabelling) comparison "
+                       "on a 70-qubit register"]
     rows = gen(ctx)
     ok = ctx.prove(["QuriVerif.Props.C03"], ["QuriVerif.Props.C03", "QuriVerif.Generated.C03Adapters"])
     if ok:
@@ -354,9 +1030,9 @@ def run(ctx: Ctx, replay=None) -> int:
             ctx.case(("row", r["backend"], r["kind"]), sample=r if len(ctx.samples) < 4 else None)
             ctx.traces += 1
     with ctx.timed("oracle_validation"):
-        budget = (25 if ctx.quick() else 300) * (1 if ok else 3)
+        budget = (25 if ctx.quick() else 240) * (1 if ok else 3)
         validate(ctx, budget)
-        validate_native_reverse(ctx, 40 if ctx.quick() else 600)
+        validate_native_reverse(ctx, 50 if ctx.quick() else 500)
     return ctx.finish()
 
 
@@ -364,21 +1040,32 @@ def run(ctx: Ctx, replay=None) -> int:
 # reverse adapters on NATIVE backend circuits (not only on images of the forward adapter)
 # ---------------------------------------------------------------------------
 NATIVE = {
-    "qulacs": ["X", "Y", "Z", "H", "S", "Sdag", "T", "Tdag", "sqrtX", "sqrtXdag", "sqrtY", "sqrtYdag", "RX", "RY", "RZ", "U1", "U2", "U3",
-               "CNOT", "CZ", "SWAP", "TOFFOLI", "dense1", "dense2", "cdense", "pauli", "paulirot"],
-    "qiskit": ["h", "x", "y", "z", "s", "sdg", "t", "tdg", "sx", "sxdg", "id", "rx", "ry", "rz", "p", "u", "cx", "cz", "swap", "ccx",
-               "unitary1", "unitary2", "cy", "ch"],
+    "qulacs": ["I", "X", "Y", "Z", "H", "S", "Sdag", "T", "Tdag", "sqrtX", "sqrtXdag", "sqrtY", "sqrtYdag", "RX", "RY", "RZ", "U1", "U2", "U3",
+               "CNOT", "CZ", "SWAP", "TOFFOLI", "dense1", "dense2", "cdense", "ccx_dense", "pauli", "paulirot", "FREDKIN"],
+    "qiskit": ["h", "x", "y", "z", "s", "sdg", "t", "tdg", "sx", "sxdg", "id", "rx", "ry", "rz", "p", "u", "u1", "u2", "u3", "cx", "cz", "swap",
+               "ecr", "ccx", "unitary1", "unitary2", "unitary3", "cy", "ch", "crx", "rzz", "iswap", "ccz", "cswap"],
     "cirq": ["H", "X", "Y", "Z", "S", "T", "Sdag", "SqrtX", "SqrtXdag", "SqrtY", "Tdag", "rx", "ry", "rz", "CNOT", "CZ", "SWAP", "TOFFOLI",
-             "ISWAP", "matrix1", "matrix2"],
+             "ISWAP", "matrix1", "matrix2", "XPow", "YPow", "ZPow", "CCZ"],
     "braket": ["h", "x", "y", "z", "s", "si", "t", "ti", "v", "vi", "rx", "ry", "rz", "phaseshift", "u", "u", "cnot", "cz", "swap", "ccnot",
-               "unitary1", "unitary2", "iswap", "cy"],
-    "tket": ["H", "X", "Y", "Z", "S", "Sdg", "T", "Tdg", "SX", "SXdg", "Rx", "Ry", "Rz", "U1", "U2", "U3", "CX", "CZ", "SWAP", "CCX", "CY"],
+               "unitary1", "unitary2", "unitary3", "iswap", "cy", "modifier:control", "modifier:neg-control", "modifier:power"],
+    "tket": ["H", "X", "Y", "Z", "S", "Sdg", "T", "Tdg", "SX", "SXdg", "noop", "Rx", "Ry", "Rz", "U1", "U2", "U3", "CX", "CZ", "SWAP", "CCX", "CY",
+             "Unitary1qBox", "Unitary2qBox", "Unitary3qBox"],
 }
 ARITY2 = {"CNOT", "CZ", "SWAP", "dense2", "cdense", "pauli", "paulirot", "cx", "cz", "swap", "cy", "ch", "unitary2", "ISWAP", "matrix2",
-          "cnot", "iswap", "CX", "CY"}
-ARITY3 = {"TOFFOLI", "ccx", "ccnot", "CCX"}
+          "cnot", "iswap", "CX", "CY", "ecr", "crx", "rzz", "Unitary2qBox", "modifier:control", "modifier:neg-control"}
+ARITY3 = {"TOFFOLI", "ccx", "ccnot", "CCX", "ccx_dense", "unitary3", "ccz", "cswap", "CCZ", "Unitary3qBox", "FREDKIN"}
 NPAR = {"RX": 1, "RY": 1, "RZ": 1, "U1": 1, "U2": 2, "U3": 3, "paulirot": 1, "rx": 1, "ry": 1, "rz": 1, "p": 1, "u": 3, "phaseshift": 1,
-        "Rx": 1, "Ry": 1, "Rz": 1}
+        "Rx": 1, "Ry": 1, "Rz": 1, "u1": 1, "u2": 2, "u3": 3, "crx": 1, "rzz": 1, "modifier:neg-control": 1}
+# native gates the reverse adapters do not take (reference tree): an error, as the property asks
+NATIVE_REJECTED = {"braket": {"iswap", "cy"}, "tket": {"CY"}, "qulacs": {"FREDKIN", "dense2"}}  # dense2: see note_once in judge()
+# argument values the reverse adapters branch on, tried on every run
+PINNED_NATIVE = {
+    "braket": [("u", [0.0, 0.0, 0.7]), ("u", [0.0, 0.9, 0.7]), ("u", [0.0, 0.9, 0.0]), ("u", [math.pi / 2, 0.9, 0.7]), ("u", [math.pi / 2, 0.0, 0.0]),
+               ("u", [0.3, 0.9, 0.7]), ("u", [0.3, 0.0, 0.0]), ("phaseshift", [0.0])],
+    "qulacs": [(g, [a]) for g in ("RX", "RY", "RZ") for a in (0.0, math.pi, -math.pi, 2 * math.pi, math.pi / 2, -0.3)],
+    "qiskit": [("u", [0.0, 0.0, 0.7]), ("u", [math.pi / 2, 0.9, 0.7]), ("u2", [0.0, 0.0]), ("p", [0.0])],
+    "tket": [("U3", [0.0, 0.0, 0.7]), ("U2", [0.9, 0.7]), ("Rz", [2 * math.pi])],
+}
 
 
 def native_specs(backend, rng, n, k):
@@ -395,10 +1082,14 @@ def native_specs(backend, rng, n, k):
         q = rng.sample(range(n), ar)
         ps = [ang() for _ in range(NPAR.get(g, 0))]
         extra = None
-        if g in ("dense1", "cdense", "unitary1", "matrix1"):
+        if g in ("XPow", "YPow", "ZPow", "modifier:power"):
+            ps = [rng.choice([0.5, -0.5, 1.0, 1.5, -1.5, 0.25, -0.25, 1.75, 2.0, 3.0, round(rng.uniform(-2, 2), 3)])]
+        if g in ("dense1", "cdense", "unitary1", "matrix1", "Unitary1qBox"):
             extra = dense.random_unitary(rng, 2)
-        elif g in ("dense2", "unitary2", "matrix2"):
+        elif g in ("dense2", "unitary2", "matrix2", "Unitary2qBox"):
             extra = dense.random_unitary(rng, 4)
+        elif g in ("unitary3", "Unitary3qBox"):
+            extra = dense.random_unitary(rng, 8)
         elif g in ("pauli", "paulirot"):
             extra = [rng.randint(1, 3), rng.randint(1, 3)]
         specs.append((g, q, ps, extra))
@@ -415,8 +1106,8 @@ def build_native(backend, n, specs):
                 getattr(c, f"add_{g}_gate")(q[0], *ps)
             elif g in ("CNOT", "CZ", "SWAP"):
                 getattr(c, f"add_{g}_gate")(q[0], q[1])
-            elif g == "TOFFOLI":
-                c.add_gate(qulacs.gate.TOFFOLI(q[0], q[1], q[2]))
+            elif g in ("TOFFOLI", "FREDKIN"):
+                c.add_gate(getattr(qulacs.gate, g)(q[0], q[1], q[2]))
             elif g == "dense1":
                 c.add_dense_matrix_gate(q[0], extra)
             elif g == "dense2":
@@ -425,6 +1116,13 @@ def build_native(backend, n, specs):
                 mg = qulacs.gate.DenseMatrix(q[0], extra)
                 mg.add_control_qubit(q[1], 1)
                 c.add_gate(mg)
+            elif g == "ccx_dense":  # the pattern circuit_from_qulacs reads as TOFFOLI
+                mg = qulacs.gate.DenseMatrix(q[2], [[0, 1], [1, 0]])
+                mg.add_control_qubit(q[0], 1)
+                mg.add_control_qubit(q[1], 1)
+                c.add_gate(mg)
+            elif g == "I":
+                c.add_gate(qulacs.gate.Identity(q[0]))
             elif g == "pauli":
                 c.add_multi_Pauli_gate([q[0], q[1]], extra)
             elif g == "paulirot":
@@ -435,15 +1133,21 @@ def build_native(backend, n, specs):
     if backend == "qiskit":
         from qiskit import QuantumCircuit
 
+        from qiskit.circuit import library as L
+
         c = QuantumCircuit(n)
         for g, q, ps, extra in specs:
             if g in ("rx", "ry", "rz", "p", "u"):
                 getattr(c, g)(*ps, q[0])
-            elif g in ("cx", "cz", "swap", "cy", "ch"):
+            elif g in ("u1", "u2", "u3"):
+                c.append(getattr(L, g.upper() + "Gate")(*ps), [q[0]])
+            elif g in ("crx", "rzz"):
+                getattr(c, g)(ps[0], q[0], q[1])
+            elif g in ("cx", "cz", "swap", "cy", "ch", "ecr", "iswap"):
                 getattr(c, g)(q[0], q[1])
-            elif g == "ccx":
-                c.ccx(q[0], q[1], q[2])
-            elif g in ("unitary1", "unitary2"):
+            elif g in ("ccx", "ccz", "cswap"):
+                getattr(c, g)(q[0], q[1], q[2])
+            elif g in ("unitary1", "unitary2", "unitary3"):
                 c.unitary(extra, list(q))
             else:
                 getattr(c, g)(q[0])
@@ -462,8 +1166,10 @@ def build_native(backend, n, specs):
                 ops.append(getattr(cirq, g)(ps[0]).on(qs[q[0]]))
             elif g in ("CNOT", "CZ", "SWAP", "ISWAP"):
                 ops.append(getattr(cirq, g).on(qs[q[0]], qs[q[1]]))
-            elif g == "TOFFOLI":
-                ops.append(cirq.TOFFOLI.on(qs[q[0]], qs[q[1]], qs[q[2]]))
+            elif g in ("TOFFOLI", "CCZ"):
+                ops.append(getattr(cirq, g).on(qs[q[0]], qs[q[1]], qs[q[2]]))
+            elif g in ("XPow", "YPow", "ZPow"):  # other spellings of the named gates, and generic powers
+                ops.append((getattr(cirq, g[0]) ** ps[0]).on(qs[q[0]]))
             else:
                 ops.append(cirq.MatrixGate(extra).on(*[qs[i] for i in q]))
         ops.append(cirq.I.on(qs[n - 1]))  # keep the register size recoverable
@@ -483,17 +1189,31 @@ def build_native(backend, n, specs):
                 getattr(c, g)(q[0], q[1])
             elif g == "ccnot":
                 c.ccnot(q[0], q[1], q[2])
-            elif g in ("unitary1", "unitary2"):
+            elif g in ("unitary1", "unitary2", "unitary3"):
                 c.unitary(matrix=extra, targets=list(q))
+            elif g == "modifier:control":
+                c.x(q[1], control=[q[0]])
+            elif g == "modifier:neg-control":
+                c.rx(q[1], ps[0], control=q[0], control_state=[0])
+            elif g == "modifier:power":
+                c.x(q[0], power=ps[0])
             else:
                 getattr(c, g)(q[0])
         return c
     if backend == "tket":
         from pytket import Circuit, OpType
 
+        from pytket.circuit import Unitary1qBox, Unitary2qBox, Unitary3qBox
+
         c = Circuit(n)
         for g, q, ps, extra in specs:
-            if ps:
+            if g == "Unitary1qBox":
+                c.add_unitary1qbox(Unitary1qBox(extra), q[0])
+            elif g == "Unitary2qBox":
+                c.add_unitary2qbox(Unitary2qBox(extra), q[0], q[1])
+            elif g == "Unitary3qBox":
+                c.add_unitary3qbox(Unitary3qBox(extra), q[0], q[1], q[2])
+            elif ps:
                 c.add_gate(getattr(OpType, g), [x / math.pi for x in ps], [q[0]])
             else:
                 c.add_gate(getattr(OpType, g), list(q))
@@ -508,50 +1228,155 @@ def validate_native_reverse(ctx: Ctx, rounds: int):
     uni = {"qulacs": B.qulacs_unitary, "qiskit": B.qiskit_unitary, "cirq": B.cirq_unitary, "braket": B.braket_unitary, "tket": B.tket_unitary}
     rng = ctx.rng
 
-    def dist(backend, rev, n, specs):
+    def dist(backend, call, n, specs, build=build_native):
         """None = rejected / not evaluable"""
-        circ = build_native(backend, n, specs)
+        circ = build(backend, n, specs)
         want = uni[backend](circ, n)
         try:
-            back = rev(circ)
+            back = call(circ)
         except Exception as e:  # noqa: BLE001
-            return ("rejected", type(e).__name__)
-        if back.qubit_count > n:
-            return ("ok", 9.0)
-        return ("ok", dense.phase_dist(dense.circuit_unitary(n, back.gates), want))
+            return ("rejected", type(e).__name__, str(e)[:90])
+        try:
+            if back.qubit_count > n:
+                return ("ok", 9.0)
+            got = circ_unitary(n, back.gates)
+            d = dense.phase_dist(got, want)
+            if d > 1e-6 and n >= 2 and up_to_output_permutation(n, got, want):
+                return ("ok", d, "permuted")
+            return ("ok", d)
+        except Exception as e:  # noqa: BLE001 — e.g. a gate with the wrong number of parameters: no documented action at all
+            return ("ok", 8.0, f"malformed result ({type(e).__name__}: {str(e)[:60]})")
+
+    def up_to_output_permutation(n, got, want):
+        """does `got` followed by a fixed relabelling of the qubits equal `want`? (what an elided swap leaves behind)"""
+        import itertools
+
+        import numpy as np
+
+        for perm in itertools.permutations(range(n)):
+            if list(perm) == list(range(n)):
+                continue
+            p = np.zeros((1 << n, 1 << n))
+            for i in range(1 << n):
+                j = sum(((i >> q) & 1) << perm[q] for q in range(n))
+                p[j, i] = 1
+            if dense.phase_dist(p @ got, want) <= 1e-6:
+                return True
+        return False
+
+    def judge_native(backend, call, label, n, specs, build=build_native, fixed_key=None, allow_reject=()):
+        names = [sp[0] for sp in specs]
+        inp = {"backend": backend, "n": n, "call": label, "native_gates": [(g, q, [repr(x) for x in ps]) for g, q, ps, _ in specs]}
+        try:
+            res = dist(backend, call, n, specs, build)
+        except Exception as e:  # noqa: BLE001 – a quirk of the backend or of this generator, not of quri-parts
+            ctx.count(f"{backend}.native", "generator-skip:" + type(e).__name__)
+            return
+        ctx.evaluations += 1
+        if res[0] == "rejected":
+            ctx.count(f"{backend}.native", "rejected:" + res[1])
+            if any(g in allow_reject for g in names):
+                return
+            if not REJECTING_SUPPORTED_IS_A_FAILURE:
+                return
+            bad = names[0] if len(set(names)) == 1 else "circuit"
+            if bad == "circuit":
+                for sp in specs:
+                    try:
+                        if dist(backend, call, n, [sp], build)[0] == "rejected":
+                            bad = sp[0]
+                            break
+                    except Exception:  # noqa: BLE001
+                        continue
+            ctx.witness(finding_key(backend, "native-rejects", bad.split(":")[0]), f"circuit_from_{backend} ({label}) raises {res[1]} ({res[2]}) for a native "
+                        "circuit over gates it has a translation for", inp)
+            return
+        d = res[1]
+        ctx.count(f"{backend}.native", "ok" if d <= 1e-6 else "MISMATCH")
+        if d > 1e-6 and backend == "qiskit" and "pre_conversion=True" in label and res[2:] == ("permuted",) and not fixed_key:
+            # qiskit's transpile (run by pre_conversion=True) elides swap gates (and swap-equivalent blocks) into a final layout the
+            # adapter does not read: what comes back is right up to a fixed relabelling of the output qubits
+            fixed_key = "qiskit.native-reverse.pre_conversion-swap"
+        if d > 1e-6 and fixed_key:
+            ctx.witness(fixed_key, f"circuit_from_{backend} ({label}) of a native circuit differs from the backend's own unitary by {d:.3g}", inp)
+        elif d > 1e-6:
+            bads = []
+            for sp in specs:  # attribute to single native gates (all of them: a known defect must not mask another one)
+                try:
+                    r1 = dist(backend, call, n, [sp], build)
+                except Exception:  # noqa: BLE001
+                    continue
+                if r1[0] == "ok" and r1[1] > 1e-6 and sp[0] not in [b for b, _ in bads]:
+                    bads.append((sp[0], r1[1]))
+            for bad, bd in bads or [("circuit", d)]:
+                detail = ".rounding" if bd < 1e-4 else ""
+                ctx.witness(fixed_key or finding_key(backend, "native-reverse", bad.split(":")[0], detail),
+                            f"circuit_from_{backend} ({label}) of a native circuit differs from the backend's own unitary by {d:.3g}", inp)
 
     for backend in uni:
         try:
             rev = reverse(backend)
         except ImportError:
             continue
+        calls = [("default", rev, ())]
+        if backend == "qiskit":
+            calls += [("pre_conversion=False", lambda c: rev(c, pre_conversion=False), ()), ("pre_conversion=True", lambda c: rev(c, pre_conversion=True), ()),
+                      ("pre_conversion=True positional", lambda c: rev(c, True), ())]
+        allow = NATIVE_REJECTED.get(backend, set())
+        # every native gate alone, then circuits
+        for g in dict.fromkeys(NATIVE[backend]):
+            for _ in range(ctx.n(2, 8)):
+                saved = NATIVE[backend]
+                NATIVE[backend] = [g]
+                try:
+                    specs = native_specs(backend, rng, 3, 1)
+                finally:
+                    NATIVE[backend] = saved
+                if specs:
+                    judge_native(backend, rev, "default", 3, specs, allow_reject=allow)
+        for g, ps in PINNED_NATIVE.get(backend, []):
+            judge_native(backend, rev, "default", 2, [(g, [rng.randrange(2)], list(ps), None)], allow_reject=allow)
         for r in range(rounds):
             n = rng.randint(1, 3)
-            specs = native_specs(backend, rng, n, 1 if r % 2 == 0 else rng.randint(2, 5))
+            specs = native_specs(backend, rng, n, rng.randint(1, 5))
             if not specs:
                 continue
-            try:
-                res = dist(backend, rev, n, specs)
-            except Exception as e:  # noqa: BLE001 – a quirk of the backend or of this generator, not of quri-parts
-                ctx.count(f"{backend}.native", "generator-skip:" + type(e).__name__)
-                continue
-            ctx.evaluations += 1
-            if res[0] == "rejected":
-                ctx.count(f"{backend}.native", "rejected:" + res[1])
-                continue
-            d = res[1]
-            ctx.count(f"{backend}.native", "ok" if d <= 1e-6 else "MISMATCH")
-            if d > 1e-6:
-                bad, bd = None, d
-                for sp in specs:  # attribute to a single native gate
-                    try:
-                        r1 = dist(backend, rev, n, [sp])
-                    except Exception:  # noqa: BLE001
-                        continue
-                    if r1[0] == "ok" and r1[1] > 1e-6:
-                        bad, bd = sp[0], r1[1]
-                        break
-                detail = ".rounding" if bd < 1e-4 else ""
-                ctx.witness(finding_key(backend, "native-reverse", bad or "circuit", detail),
-                            f"circuit_from_{backend} of a native circuit differs from the backend's own unitary by {d:.3g}",
-                            {"backend": backend, "n": n, "native_gates": [(g, q, [repr(x) for x in ps]) for g, q, ps, _ in specs]})
+            label, call, _ = calls[0] if rng.random() < 0.5 else rng.choice(calls)
+            ctx.count(f"{backend}.native.call", label)
+            judge_native(backend, call, label, n, specs, allow_reject=() if "True" in label else allow)
+        if backend == "qiskit":
+            qiskit_registers(ctx, judge_native, rev, rounds)
+            # pinned instance of the pre_conversion / swap case (random circuits reach it only now and then)
+            judge_native("qiskit", lambda c: rev(c, pre_conversion=True), "pre_conversion=True", 2, [("h", [0], [], None), ("swap", [0, 1], [], None)],
+                         fixed_key="qiskit.native-reverse.pre_conversion-swap")
+
+
+def qiskit_registers(ctx: Ctx, judge_native, rev, rounds):
+    """Qiskit circuits whose qubits live in more than one register: the action is defined on the circuit's qubit order"""
+    rng = ctx.rng
+
+    def build(backend, n, specs):
+        from qiskit import QuantumCircuit, QuantumRegister
+
+        one = build_native("qiskit", n, specs)
+        k = build.split
+        regs = [QuantumRegister(k, "a"), QuantumRegister(n - k, "b")] if 0 < k < n else [QuantumRegister(n, "a")]
+        qc = QuantumCircuit(*regs)
+        for inst in one.data:
+            qc.append(inst.operation, [qc.qubits[one.find_bit(q).index] for q in inst.qubits])
+        return qc
+
+    for _ in range(max(4, rounds // 8)):
+        n = rng.randint(2, 4)
+        specs = native_specs("qiskit", rng, n, rng.randint(1, 4))
+        if not specs:
+            continue
+        # only when the same gates on one register come back right is a failure a matter of the registers
+        build.split = 0
+        before = getattr(ctx, "witness_total", 0)
+        judge_native("qiskit", rev, "one register", n, specs, build=build)
+        if getattr(ctx, "witness_total", 0) != before:
+            continue
+        build.split = rng.randint(1, n - 1)
+        judge_native("qiskit", rev, f"registers a[{build.split}], b[{n - build.split}]", n, specs, build=build,
+                     fixed_key="qiskit.native-reverse.multi-register")
